@@ -126,10 +126,10 @@ let () =
                Hashtbl.add seen key ();
                incr distinct;
                if List.exists (fun x -> x <> -1) b then incr nontrivial;
-               if List.length !samples < !nsamples && (!distinct mod 97 = 1 || !distinct < 3) then
+               if List.length !samples < !nsamples && (!distinct mod 97 = 1 || !distinct < 3) && String.length line < 2000 then
                  samples := line :: !samples
              end;
-             if !nv < !nvcases && !records mod 211 = 1 then begin
+             if !nv < !nvcases && !records mod 211 = 1 && List.length inp < 3000 then begin
                incr nv;
                vcases := (tag, inp, b, v.Model.v_agree, v.Model.v_holds, model) :: !vcases
              end
